@@ -106,6 +106,22 @@ def run(tier, seed, replay=None):
                 stats[(cfg, "tp", key)] = stats.get((cfg, "tp", key), 0) + 1
             if worst:
                 rep.violation(f"[{cfg}] reported solution violates an asserted constraint: {worst[2][:300]}", e2e.replay_of(worst[0], cfg, worst[1]), tags={"tp:" + cfg})
+        # cardinality: exactly-one over up to ten boolean variables, every variable decided by propagation
+        cprogs = [rgen.card_program(rng) for _ in range(150 if tier == "quick" else 1500)]
+        for cfg in e2e.cfgs(tier):
+            outs = e2e.solve_all(cfg, [p[0] for p in cprogs])
+            worst = None
+            for (txt, meta), o in zip(cprogs, outs):
+                v = e2e.verdict(o)
+                key = v.split(":")[0]
+                if v == "T":
+                    bad = solcheck.check_constraints(e2e.solution(o), meta)
+                    key = "T-bad" if bad else "T-ok"
+                    if bad and (worst is None or len(txt) < len(worst[0])):
+                        worst = (txt, o, bad[0])
+                stats[(cfg, "card", key)] = stats.get((cfg, "card", key), 0) + 1
+            if worst:
+                rep.violation(f"[{cfg}] reported solution violates an asserted constraint: {worst[2][:300]}", e2e.replay_of(worst[0], cfg, worst[1]), tags={"card:" + cfg})
         # object-valued constraints: enum variables with planted (dis)equalities
         eprogs = []
         for _ in range(150 if tier == "quick" else 1500):
@@ -162,7 +178,7 @@ def run(tier, seed, replay=None):
         rep.violation("the solver does not build in a supported configuration", {"kind": "build", "theorem_or_correspondence": "cmake build of /repo", "log": str(e)}, no_input=True)
     rep.cov.update({
         "evaluations": len(texts) * len(e2e.cfgs(tier)), "distinct_nontrivial": len(nontrivial),
-        "rule": "seeded constraint networks over 1-5 real and 0-3 boolean variables, 1-6 constraints each built around a planted assignment (so every program is satisfiable), 80% in the core fragment and 20% in the extended one, variables pinned to constant expressions; every program is solved in each configuration of the tier; non-trivial = solved with at least two constraints",
+        "rule": "seeded constraint networks over 1-5 real and 0-3 boolean variables, 1-6 constraints each built around a planted assignment (so every program is satisfiable), 80% in the core fragment and 20% in the extended one, variables pinned to constant expressions; plus planted difference networks over time points, exactly-one constraints over 2-10 boolean variables decided by unit facts, and enum (dis)equalities; every program is solved in each configuration of the tier; non-trivial = solved with at least two constraints",
         "samples": texts[:2], "configurations": e2e.cfgs(tier),
         "outcomes": {f"{c}/{k}/{v}": n_ for (c, k, v), n_ in sorted(stats.items())},
     })
